@@ -53,12 +53,14 @@ META = dict(
 CLAUSES = {"setup_once_before_claims", "at_most_one_claim_per_partition", "exactly_one_claim_unless_ending",
            "claim_starts_at_committed_or_initial", "cleanup_once_after_claims_returned", "final_commit_after_cleanup",
            "consume_returns_last", "requests_carry_issued_identity", "fenced_member_rejoins_fresh",
-           "no_skip_across_sessions", "consume_hang", "consume_panic"}
+           "no_skip_across_sessions", "consume_hang", "close_hang", "consume_panic"}
+SHUTDOWN_CLAUSES = {"consume_hang", "close_hang", "consume_panic"}
 ONLY = ["group_*"]
 STRATEGIES = ["range", "roundrobin", "sticky"]
 
 # non-vacuity: broken variants of the model and the clause family each one has to violate
-BUGS_QUICK = ["skip_cleanup", "claim_at_initial", "keep_member_id"]
+BUGS_QUICK = ["skip_cleanup", "claim_at_initial", "keep_member_id", "claim_fail_no_cancel"]
+BUG_EXPECT = {"claim_fail_no_cancel": "ClaimFailEndsSession"}   # default: NoViolation
 BUGS_ALL = BUGS_QUICK + ["stale_hb_identity", "skip_setup", "no_final_commit", "cleanup_early", "stale_commit_identity"]
 
 
@@ -95,8 +97,9 @@ def model_check(ctx):
         if not r.finished or r.distinct < 1000:
             raise vlib.Inconclusive("model checking %s did not complete" % cfg)
     for b, r in bgs:
-        if r.timed_out or r.error or r.violated != "NoViolation":
-            raise vlib.Inconclusive("non-vacuity self-test: model variant %s did not violate NoViolation (%s)" % (b, r.error or r.violated))
+        want = BUG_EXPECT.get(b, "NoViolation")
+        if r.timed_out or r.error or r.violated != want:
+            raise vlib.Inconclusive("non-vacuity self-test: model variant %s did not violate %s (%s)" % (b, want, r.error or r.violated))
     return mcs, bgs
 
 
@@ -134,6 +137,8 @@ def classes(sc, fine):
                 for k in s[name]:
                     if k != "ok":
                         out.add("%s=%s" % (name, k))
+            if s.get("df", -1) >= 0:
+                out.add("df=%d/%s" % (s["df"], s["h"]["mode"]))
             if fine:
                 out.add("h=%s/%d/%d" % (s["h"]["mode"], s["h"]["n"], s["h"]["mark"]))
             else:
@@ -165,14 +170,16 @@ def gen_cases(ctx, out):
     thorough = ctx.tier == "thorough"
     # (cfg, family, TLC workers, simulate num, per-class quota, extra)
     plan = [("Group.gen.life1.cfg", "life1", 4, 0, 2, 6), ("Group.gen.life2.cfg", "life2", 3, 0, 2, 4),
-            ("Group.gen.faults.cfg", "faults", 3, 0, 2, 4), ("Group.gen.resume.cfg", "resume", 2, 0, 2, 6)]
+            ("Group.gen.faults.cfg", "faults", 3, 0, 2, 4), ("Group.gen.resume.cfg", "resume", 2, 0, 2, 6),
+            ("Group.gen.dfault.cfg", "dfault", 2, 0, 2, 2), ("Group.gen.empty.cfg", "empty", 3, 0, 1, 4)]
     if thorough:
         plan = [("Group.gen.life1.cfg", "life1", 4, 0, 6, 300), ("Group.gen.life2.cfg", "life2", 3, 0, 6, 200),
                 ("Group.gen.faults.cfg", "faults", 3, 0, 6, 400), ("Group.gen.resume.cfg", "resume", 2, 0, 6, 250),
-                ("Group.gen.two.cfg", "two", 8, 0, 6, 700), ("Group.sim.big.cfg", "simbig", 1, 6000, 3, 700)]
+                ("Group.gen.two.cfg", "two", 8, 0, 6, 700), ("Group.sim.big.cfg", "simbig", 1, 6000, 3, 700),
+                ("Group.gen.dfault.cfg", "dfault", 2, 0, 6, 60), ("Group.gen.empty.cfg", "empty", 3, 0, 6, 150)]
     else:
         plan += [("Group.gen.twoq.cfg", "two", 6, 0, 2, 8), ("Group.sim.big.cfg", "simbig", 1, 150, 0, 12)]
-    with concurrent.futures.ThreadPoolExecutor(max_workers=6) as ex:
+    with concurrent.futures.ThreadPoolExecutor(max_workers=8) as ex:
         futs = [ex.submit(gen_one, ctx, cfg, w, sim, ctx.seed) for cfg, _, w, sim, _, _ in plan]
         res = [f.result() for f in futs]
     rng = random.Random(ctx.seed)
@@ -190,6 +197,8 @@ def gen_cases(ctx, out):
                 sc["id"] = "%s-%d" % (fam, k)
                 sc["strategy"] = STRATEGIES[rng.randrange(3)]
                 sc["growat"] = ""
+                if fam == "dfault":
+                    sc["dfkind"] = ["notleader", "conn"][k % 2]
                 f.write(json.dumps(sc, separators=(",", ":")) + "\n")
             n += len(chosen)
             stats.append({"cfg": cfg, "family": fam, "scenarios_generated": len(cases), "replayed": len(chosen),
@@ -203,6 +212,10 @@ def gen_cases(ctx, out):
                                         {"jf": [], "sf": [], "cf": [], "h": {"mode": "early", "n": 1, "mark": 1}, "trig": {"kind": "none", "at": "pre"}}]}]}
             f.write(json.dumps(sc, separators=(",", ":")) + "\n")
             n += 1
+        # close / cancel at every life-cycle point, empty assignment, rebalance, unreachable coordinator, double Close
+        for sc in shutdown_scenarios():
+            f.write(json.dumps(sc, separators=(",", ":")) + "\n")
+            n += 1
         # partition-count change while a session runs (configuration family, not a model action)
         for k, mode in enumerate(["drain", "ctxwait"]):
             sc = {"id": "grow-%d" % k, "fam": "grow", "np": 1 + k, "loglen": 2, "logstart": 0, "initial": -2, "auto": "slow",
@@ -213,6 +226,159 @@ def gen_cases(ctx, out):
             f.write(json.dumps(sc, separators=(",", ":")) + "\n")
             n += 1
     return n, stats
+
+
+def _sess(mode="drain", n=1, mark=1, trig=("none", "pre"), jf=(), sf=(), cf=(), df=-1):
+    return {"jf": list(jf), "sf": list(sf), "cf": list(cf), "df": df, "h": {"mode": mode, "n": n, "mark": mark},
+            "trig": {"kind": trig[0], "at": trig[1]}}
+
+
+def _client(c, sess, start="pre", pre="none", lf="ok", nsess=None):
+    return {"c": c, "start": start, "pre": pre, "nsess": len(sess) if nsess is None else nsess, "sess": sess, "lf": lf}
+
+
+def _scen(sid, clients, np=2, committed=None, **kw):
+    sc = {"id": sid, "fam": "shutdown", "np": np, "loglen": 2, "logstart": 0, "initial": -2, "auto": "slow", "strategy": "range",
+          "committed": committed or [-1] * np, "growat": "", "nonet": True, "clients": clients}
+    sc.update(kw)
+    return sc
+
+
+def shutdown_scenarios():
+    """deterministic corpus: Close (without cancelling the context) and cancel at every life-cycle point, a member with an
+    empty assignment, Close during a rebalance, unreachable coordinator, double Close, RefreshFrequency=0. In all of them a
+    Close-triggered call is never ended by the harness: Consume and Close have to return by themselves."""
+    out = []
+    for at, mode in [("join", "drain"), ("sync", "drain"), ("setup", "drain"), ("claim", "drain"), ("claim", "ctxwait"), ("cleanup", "early")]:
+        out.append(_scen("sd-close-%s-%s" % (at, mode), [_client("c1", [_sess(mode, 1, 1, ("close", at))])]))
+    out.append(_scen("sd-close-pre", [_client("c1", [_sess()], pre="close")]))
+    out.append(_scen("sd-close-idle", [_client("c1", [_sess("early", 1, 1)])]))
+    for at in ("join", "setup", "claim"):
+        out.append(_scen("sd-cancel-%s" % at, [_client("c1", [_sess("ctxwait", 1, 1, ("cancel", at))])]))
+    # empty assignment: two members, one partition; the member without a claim is closed while blocked in Consume
+    out.append(_scen("sd-empty-close", [_client("c1", [_sess("drain", 1, 1), _sess("drain", 1, 1, ("close", "claim"))]),
+                                        _client("c2", [_sess("drain", 0, 0, ("close", "claim"))])], np=1))
+    out.append(_scen("sd-empty-close-late", [_client("c1", [_sess("drain", 1, 1, ("close", "claim"))]),
+                                             _client("c2", [_sess("drain", 0, 0, ("close", "claim"))], start="setup")], np=1))
+    out.append(_scen("sd-empty-cancel", [_client("c1", [_sess("drain", 1, 1), _sess("drain", 1, 1, ("close", "claim"))]),
+                                         _client("c2", [_sess("drain", 0, 0, ("cancel", "claim"))])], np=1))
+    # Close during a rebalance: c2 joins while c1 runs; c1 is closed while it rejoins
+    out.append(_scen("sd-close-in-rebalance", [_client("c1", [_sess("drain", 1, 1), _sess("drain", 1, 1, ("close", "join"))]),
+                                               _client("c2", [_sess("drain", 1, 1, ("close", "claim"))], start="setup")]))
+    out.append(_scen("sd-close-both", [_client("c1", [_sess("drain", 1, 1, ("close", "claim"))]),
+                                       _client("c2", [_sess("ctxwait", 1, 1, ("close", "claim"))])]))
+    # the coordinator becomes unreachable, then Close
+    out.append(_scen("sd-coord-down", [_client("c1", [_sess("drain", 1, 1, ("coord_down_close", "claim"))])]))
+    out.append(_scen("sd-leave-conn", [_client("c1", [_sess("drain", 1, 1, ("close", "claim"))], lf="conn")]))
+    # double Close of the group
+    out.append(_scen("sd-double-close", [_client("c1", [_sess("drain", 1, 1, ("close", "claim"))])], dclose=True))
+    out.append(_scen("sd-double-close-idle", [_client("c1", [_sess("early", 1, 1)])], dclose=True))
+    # background metadata refresh disabled
+    out.append(_scen("sd-refresh0-close", [_client("c1", [_sess("drain", 1, 1, ("close", "claim"))])], refresh0=True))
+    out.append(_scen("sd-refresh0-empty-close", [_client("c1", [_sess("drain", 1, 1), _sess("drain", 1, 1, ("close", "claim"))]),
+                                                 _client("c2", [_sess("drain", 0, 0, ("close", "claim"))])], np=1, refresh0=True))
+    return out
+
+
+def collect(ctx, rs, trace, ncases):
+    """STATS / VIOL of all shards + cause-level features of every violation"""
+    allv = []
+    stats = {}
+    for r in rs:
+        ctx.need(r, "trace validation")
+        st = r.printed("STATS")
+        if len(st) != 1 or len(r.printed("VIOL")) != 1:
+            raise vlib.Inconclusive("trace validation did not reach the end of a shard (no STATS/VIOL line)")
+        for k, v in st[0].items():
+            stats[k] = stats.get(k, 0) + v
+        allv += vlib.trace_viols(r)
+    if stats.get("traces", 0) != ncases:
+        raise vlib.Inconclusive("trace validation evaluated %d executions, harness recorded %d" % (stats.get("traces", 0), ncases))
+    # a client left in a healthy session is collateral of another client's hang; alone it means the script stalled
+    hung = {v["trace"] for v in allv if v["clause"] in ("consume_hang", "close_hang")}
+    stalled = [v for v in allv if v["clause"] == "scenario_stalled" and v["trace"] not in hung]
+    if stalled:
+        raise vlib.Inconclusive("scenario stalled without a hang of the code under test (script / harness problem): %s" % stalled[:3])
+    allv = [v for v in allv if v["clause"] != "scenario_stalled"]
+    unknown = [v for v in allv if v["clause"] not in CLAUSES]
+    if unknown:
+        raise vlib.Inconclusive("observer reported an unknown clause: %s" % unknown[:3])
+    viols = []
+    if allv:
+        events = {}
+        want = {v["trace"] for v in allv}
+        for e in vlib.read_ndjson(trace):
+            if e["t"] in want:
+                events.setdefault(e["t"], []).append(e)
+        for v in allv:
+            evs = events.get(v["trace"], [])
+            head = evs[0] if evs else {}
+            e = next((x for x in evs if x["i"] == v["index"]), {})
+            before = [x for x in evs if x["i"] <= v["index"]]
+            c = e.get("c")
+            mine = [x for x in before if x.get("c") == c]
+            cause = None
+            if v["clause"] == "final_commit_after_cleanup":
+                cause = final_commit_cause(head, mine)
+            setups = [x for x in mine if x.get("ev") == "setup"]
+            v["features"] = {
+                "cause": cause,
+                "refresh0": bool(head.get("refresh0")),
+                "close_called": any(x.get("ev") == "close_call" for x in mine),
+                "cancelled": any(x.get("ev") == "cancel" for x in mine),
+                "claim_failed": any(x.get("ev") == "claim_fail" for x in mine),
+                "claims_empty": bool(setups) and setups[-1].get("claims") == [],
+                "scenario": head.get("id"), "family": head.get("fam"), "members": head.get("members"), "auto": head.get("auto"),
+                "strategy": head.get("strategy"), "initial": head.get("initial"),
+                "event": e.get("ev"), "client": c, "err": e.get("err"), "what": e.get("what"), "site": e.get("site"),
+                "last_answer_errors": [x.get("err") for x in mine if x.get("ev") in ("join_resp", "sync_resp", "hb", "commit", "leave") and x.get("err") != "ok"][-3:],
+                "history": [{k: x[k] for k in x if k != "t"} for x in before if x.get("ev") != "hb" or x.get("err") != "ok"][-14:],
+            }
+            viols.append(v)
+    return viols, stats
+
+
+def replay(ctx, cases, ncases, nproc, timeout, name):
+    rc, out, trace, sums = ctx.go_test_parallel("^TestVerifGroup$", cases, nproc=nproc, timeout=timeout, name=name, only=ONLY)
+    ctx.need_go(rc, out, "consumer group replay")
+    if not trace or not os.path.exists(trace):
+        raise vlib.Inconclusive("harness produced no trace")
+    fails = [h for s in sums for h in (s.get("setup_failures") or [])]
+    simerrs = [h for s in sums for h in (s.get("sim_errors") or [])]
+    if fails:
+        raise vlib.Inconclusive("scenario setup failed: %s" % fails[:2])
+    if simerrs:
+        raise vlib.Inconclusive("simulated cluster reported an internal error: %s" % simerrs[:2])
+    executed = {}
+    for s in sums:
+        for k, v in (s.get("cases") or {}).items():
+            executed[k] = executed.get(k, 0) + v
+    if sum(executed.values()) != ncases:
+        raise vlib.Inconclusive("harness executed %d of %d scenarios" % (sum(executed.values()), ncases))
+    return trace, sums, executed
+
+
+def shutdown_family(ctx):
+    """for C12 (shutdown always completes): only the close / cancel-at-every-point corpus of shutdown_scenarios() on the real
+    consumer group, judged by spec/GroupTrace.tla. Returns (violations restricted to the hang / panic clauses with their
+    features, stats dict, trace path)."""
+    cases = os.path.join(ctx.scratch, "c07_shutdown_cases.ndjson")
+    scs = shutdown_scenarios()
+    with open(cases, "w") as f:
+        for sc in scs:
+            f.write(json.dumps(sc, separators=(",", ":")) + "\n")
+    trace, sums, executed = replay(ctx, cases, len(scs), 8, 400, "grpsd")
+    rs = ctx.tlc_trace("GroupTrace", "GroupTrace.cfg", trace, shards=2, timeout=600, name="grpsdtrace")
+    viols, stats = collect(ctx, rs, trace, len(scs))
+    viols = [v for v in viols if v["clause"] in SHUTDOWN_CLAUSES]
+    evs = vlib.read_ndjson(trace)
+    stats = dict(stats)
+    stats.update({"scenarios": len(scs), "close_calls": sum(1 for e in evs if e["ev"] == "close_call"),
+                  "close_returns": sum(1 for e in evs if e["ev"] == "close_ret"),
+                  "consume_returns": sum(1 for e in evs if e["ev"] == "consume_ret"),
+                  "cancels": sum(1 for e in evs if e["ev"] == "cancel"),
+                  "scenario_ids": [sc["id"] for sc in scs]})
+    return viols, stats, trace
 
 
 def final_commit_cause(head, mine):
@@ -290,24 +456,8 @@ def run(ctx):
         t0 = time.time()
         ncases, gstats = gen_cases(ctx, cases)
         t1 = time.time()
-        rc, out, trace, sums = ctx.go_test_parallel("^TestVerifGroup$", cases, nproc=10 if thorough else 8,
-                                                    timeout=2400 if thorough else 400, name="grp", only=ONLY)
-        ctx.need_go(rc, out, "consumer group replay")
+        trace, sums, executed = replay(ctx, cases, ncases, 10 if thorough else 8, 2400 if thorough else 400, "grp")
         t2 = time.time()
-        if not trace or not os.path.exists(trace):
-            raise vlib.Inconclusive("harness produced no trace")
-        fails = [h for s in sums for h in (s.get("setup_failures") or [])]
-        simerrs = [h for s in sums for h in (s.get("sim_errors") or [])]
-        if fails:
-            raise vlib.Inconclusive("scenario setup failed: %s" % fails[:2])
-        if simerrs:
-            raise vlib.Inconclusive("simulated cluster reported an internal error: %s" % simerrs[:2])
-        executed = {}
-        for s in sums:
-            for k, v in (s.get("cases") or {}).items():
-                executed[k] = executed.get(k, 0) + v
-        if sum(executed.values()) != ncases:
-            raise vlib.Inconclusive("harness executed %d of %d scenarios" % (sum(executed.values()), ncases))
         nevents = sum(s.get("events", 0) for s in sums)
         r0 = refresh0_family(ctx, trace)
         ncases += 1
@@ -318,47 +468,7 @@ def run(ctx):
         ctx.say("C07 phases: generation %.1fs (%d scenarios), replay on real code %.1fs, trace validation %.1fs, model checking %s "
                 "(ran concurrently)" % (t1 - t0, ncases, t2 - t1, t3 - t2,
                                         ", ".join("%s %d states %.0fs" % (c, r.distinct, r.wall) for c, r in mcs)))
-    allv = []
-    stats = {}
-    for r in rs:
-        ctx.need(r, "trace validation")
-        st = r.printed("STATS")
-        if len(st) != 1 or len(r.printed("VIOL")) != 1:
-            raise vlib.Inconclusive("trace validation did not reach the end of a shard (no STATS/VIOL line)")
-        for k, v in st[0].items():
-            stats[k] = stats.get(k, 0) + v
-        allv += vlib.trace_viols(r)
-    if stats.get("traces", 0) != ncases:
-        raise vlib.Inconclusive("trace validation evaluated %d executions, harness recorded %d" % (stats.get("traces", 0), ncases))
-    unknown = [v for v in allv if v["clause"] not in CLAUSES]
-    if unknown:
-        raise vlib.Inconclusive("observer reported an unknown clause: %s" % unknown[:3])
-    viols = []
-    if allv:
-        events = {}
-        want = {v["trace"] for v in allv}
-        for e in vlib.read_ndjson(trace):
-            if e["t"] in want:
-                events.setdefault(e["t"], []).append(e)
-        for v in allv:
-            evs = events.get(v["trace"], [])
-            head = evs[0] if evs else {}
-            e = next((x for x in evs if x["i"] == v["index"]), {})
-            before = [x for x in evs if x["i"] <= v["index"]]
-            c = e.get("c")
-            mine = [x for x in before if x.get("c") == c]
-            cause = None
-            if v["clause"] == "final_commit_after_cleanup":
-                cause = final_commit_cause(head, mine)
-            v["features"] = {
-                "cause": cause,
-                "scenario": head.get("id"), "family": head.get("fam"), "members": head.get("members"), "auto": head.get("auto"),
-                "strategy": head.get("strategy"), "initial": head.get("initial"),
-                "event": e.get("ev"), "client": c, "err": e.get("err"), "what": e.get("what"), "site": e.get("site"),
-                "last_answer_errors": [x.get("err") for x in mine if x.get("ev") in ("join_resp", "sync_resp", "hb", "commit", "leave") and x.get("err") != "ok"][-3:],
-                "history": [{k: x[k] for k in x if k != "t"} for x in before][-14:],
-            }
-            viols.append(v)
+    viols, stats = collect(ctx, rs, trace, ncases)
     samples = []
     for s in sums:
         samples += s.get("samples") or []
@@ -398,6 +508,10 @@ def run(ctx):
                         "heartbeat the code rejoins with the stale id once, is refused, and then rejoins fresh - accepted)",
                         "join rounds of the simulated coordinator complete when all known members have joined; ids a client abandoned "
                         "expire at its next fresh join and when the client is gone (emulates the session timeout)",
-                        "Consumer.Return.Errors=false, Metadata.RefreshFrequency>0 (see known findings for RefreshFrequency=0)",
+                        "data-plane fault family: ListOffsets for one assigned partition fails (NOT_LEADER / connection loss) for a whole "
+                        "Consume call: the claim cannot start, which is logged (claim_fail) and accepted as a session-ending trigger; the "
+                        "call must end by itself (no safety-net cancel in this family nor after Close was called)",
+                        "hangs are reported by a quiescence-aware watchdog (vAwait): only when the process is fully blocked",
+                        "Consumer.Return.Errors=false",
                         "model bounds: <=2 members, 2 partitions (3 in simulation), log of 2-3 records, <=3 Consume calls, fault/trigger budgets <=2"],
                        save={"trace.ndjson": trace, "cases.ndjson": cases})
